@@ -44,7 +44,7 @@ def _build():
     reg.add(S.schema2("sum_cat3_x_cat3", A3, B3, numeric=dict(num)), (1,), (None, 1, 2),
             configs=[{"rows": rs2, "cols": cs}, {"rows": rs, "cols": cs3}], quick=2, thorough=3)
     reg.add(S.schema2("sumna_cat3_x_cat2", A3, B2, numeric={"measures": ["sum"], "valid_counts": True, "sum_empty": "na"}),
-            (1,), NUMS, configs=[{}, {"rows": rs}, {"cols": cs}], quick=2, thorough=3)
+            (1,), (None, 1, 2), configs=[{}, {"rows": rs}, {"cols": cs}, {"rows": rs2, "cols": cs}], quick=3, thorough=4)
     reg.add(S.schema2("sum_cat3_x_cat2_w", A3, B2, weighted=True, numeric=dict(num)), (1, 2), (None, 1, -1),
             configs=[{"rows": rs, "cols": cs}], quick=2, thorough=2)
     reg.add(S.schema2("sum_cat3_x_mr", A3, M, numeric=dict(num)), (1,), (None, 1, 2),
